@@ -225,7 +225,11 @@ def seg_index(st, seg, off, pytype):
         return seg.a
     if k in ("P32", "P64") and is_conc(seg.a) and is_conc(off):
         return seg.a.to_bytes(4 if k == "P32" else 8, "big")[off]
-    t = smt.sat_(seg_term(st, seg), zint(off))
+    if k == "A" and _is_slice(seg.a):
+        # element of a slice = element of the underlying term (in-range slices only are ever built here)
+        t = smt.sat_(seg.a.arg(0), simp(seg.a.arg(1) + zint(off)))
+    else:
+        t = smt.sat_(seg_term(st, seg), zint(off))
     if pytype in ("bytes", "bytearray"):
         st.assume(z3.And(t >= 0, t < 256))
     else:
